@@ -269,6 +269,10 @@ func GetProjectList(context db.DB) ([]*Project, error) {
 			common.DealWithErr(iterator.Error())
 			break
 		}
+		// deleted entries (e.g. a project creation which was rolled back) show up with an empty value
+		if len(iterator.Value()) == 0 {
+			continue
+		}
 		projectList = append(projectList, parseProject(iterator.Value()))
 	}
 
